@@ -773,13 +773,23 @@ theorem itemDict_get_next (parent : ObjId) (id : Nat) (title : List Nat) (f : Na
     split <;>
       simp (disch := decide) only [setOpt_get_ne, Dict.get_set_ne, baseItem, Dict.get_nil]
 
+/-- the reader's key constants (regenerated from src/outlines.rs by the translator) are the ones the
+shared `get_outlines` model (`Model/Outlines.lean`, namespace `Q13`) is written with -/
+theorem reader_keys_agree :
+    RD_A = Q13.K_A ∧ RD_DEST = Q13.K_Dest ∧ RD_TITLE = Q13.K_Title ∧ RD_S = Q13.K_S ∧ RD_GOTO = Q13.K_GoTo ∧
+    RD_GOTOR = Q13.K_GoToR ∧ RD_D = Q13.K_D ∧ RD_OUTLINES = Q13.K_Outlines ∧ RD_FIRST = Q13.K_First ∧
+    RD_NEXT = Q13.K_Next ∧ RD_DESTS = Q13.K_Dests ∧ RD_NAMES = Q13.K_Names := by decide
+
+/-- `Destination::new(title, page, /Fit)` of a bookmark -/
+def destOf (title : List Nat) (page : ObjId) : Q13.Outline :=
+  .dest (Q13.mkDest (.str (titleBytes title) .lit) (oref page) (.name OL_FIT))
+
 /- the outline tree `get_outlines` is expected to return for a forest -/
 mutual
-def outN : BT → List Outline
+def outN : BT → List Q13.Outline
   | .node _ title _ _ page kids =>
-    Outline.dest (.str (titleBytes title) .lit) (oref page) (.name OL_FIT) ::
-      (if kids.isEmpty then [] else [Outline.sub (outL kids)])
-def outL : List BT → List Outline
+    destOf title page :: (if kids.isEmpty then [] else [Q13.Outline.sub (outL kids)])
+def outL : List BT → List Q13.Outline
   | [] => []
   | t :: ts => outN t ++ outL ts
 end
@@ -796,81 +806,207 @@ theorem EmbL_head {g : ObjId → Option Dict} {m : Nat} {parent : ObjId} {prev :
   cases t; simp only [EmbL, EmbN] at h; exact h.1.1
 
 theorem getOutline_item (os : Objects) (parent : ObjId) (id : Nat) (title : List Nat) (f : Nat) (c : List Bytes)
-    (page : ObjId) (kids : List BT) (m : Nat) (prev next : Option ObjId)
+    (page : ObjId) (kids : List BT) (m : Nat) (prev next : Option ObjId) (named : Q13.Named)
     (hinfo : dictAt os (m + 2, 0) = some (infoDict page)) :
-    getOutline os (itemDictOf parent (.node id title f c page kids) m prev next) =
-      .item (.dest (.str (titleBytes title) .lit) (oref page) (.name OL_FIT)) := by
+    Q13.getOutline os (itemDictOf parent (.node id title f c page kids) m prev next) named =
+      .ok (some (destOf title page), named) := by
   have hA := itemDict_get_A parent id title f c page kids m prev next
   have hT := itemDict_get_title parent id title f c page kids m prev next
   have hgd := getDictionary_of_dictAt hinfo
-  have hS : (infoDict page).get RD_S = some (.name OL_GOTO) := by
-    simp [infoDict, Dict.get, OL_D, OL_S, RD_S]
-  have hD : (infoDict page).get RD_D = some (.arr [oref page, .name OL_FIT]) := by
-    simp [infoDict, Dict.get, OL_D, RD_D]
-  have hgoto : ¬ (OL_GOTO ≠ RD_GOTO ∧ OL_GOTO ≠ RD_GOTOR) := by decide
-  simp only [getOutline, getDictInDict, hA, hgd, hS, Option.bind, Obj.asName, hgoto, if_false, hT, hD]
-  simp [buildOutlineResult, borDirect, oref]
+  have hS : (infoDict page).get Q13.K_S = some (.name OL_GOTO) := by
+    simp [infoDict, Dict.get, OL_D, OL_S, Q13.K_S]
+  have hD : (infoDict page).get Q13.K_D = some (.arr [oref page, .name OL_FIT]) := by
+    simp [infoDict, Dict.get, OL_D, Q13.K_D]
+  have hgoto : ¬ (OL_GOTO ≠ Q13.K_GoTo ∧ OL_GOTO ≠ Q13.K_GoToR) := by decide
+  have eA : Q13.K_A = RD_A := by decide
+  have eT : Q13.K_Title = RD_TITLE := by decide
+  simp only [Q13.getOutline, Q13.getDictInDict, eA, eT, hA, hgd, hS, Option.bind, Obj.asName, hgoto, if_false, hT, hD]
+  simp [Q13.buildOutlineResult, Q13.buildDirect, oref, destOf]
 
-/-- **walk.** On any document whose objects embed the sibling list `t :: r` (with whatever else is in
-the document), for all fuel ≥ the number of bookmarks, `get_outlines` started at the first sibling
-appends exactly the outline tree of the forest: one destination per bookmark, in order, each
-followed by the sub-list of its children. -/
-theorem walk_emb (os : Objects) : ∀ (fuel : Nat) (t : BT) (r : List BT) (m : Nat) (parent : ObjId)
-    (prev : Option ObjId) (acc : List Outline),
-    BT.sizeL (t :: r) ≤ fuel → EmbL (dictAt os) m parent prev (t :: r) →
-    walk os fuel (itemDictOf parent t m prev (firstId r (m + 2 * t.size))) acc = .ok (acc ++ outL (t :: r)) := by
-  intro fuel
-  induction fuel with
+/-! ### one step of the guarded walk on a well-formed item -/
+
+/-- what the `First` phase of an item does when the item is well formed: no children, or a child list
+behind a reference not yet in `seen` whose own walk succeeds with a non-empty result -/
+inductive FirstPhase (os : Objects) (node : Dict) (acc : List Q13.Outline) (o : Q13.Outline) (named : Q13.Named)
+    (seen : List ObjId) : List Q13.Outline → List ObjId → Prop where
+  | none (h : node.get Q13.K_First = none) : FirstPhase os node acc o named seen (acc ++ [o]) seen
+  | sub (a b : Nat) (d : Dict) (subs : List Q13.Outline) (seen2 : List ObjId)
+      (h : node.get Q13.K_First = some (.ref a b)) (hs : (a, b) ∉ seen) (hd : getDictionary os (a, b) = some d)
+      (hw : (Q13.walkG os d [] named ((a, b) :: seen)).val = (.ok (subs, named), seen2))
+      (hne : subs.isEmpty = false) :
+      FirstPhase os node acc o named seen (acc ++ [o] ++ [.sub subs]) seen2
+
+theorem walkG_first (os : Objects) (node : Dict) (acc : List Q13.Outline) (named : Q13.Named) (seen : List ObjId)
+    (o : Q13.Outline) (acc2 : List Q13.Outline) (seen2 : List ObjId)
+    (hgo : Q13.getOutline os node named = .ok (some o, named))
+    (hF : FirstPhase os node acc o named seen acc2 seen2) :
+    (node.get Q13.K_Next = none → (Q13.walkG os node acc named seen).val = (.ok (acc2, named), seen2)) ∧
+    (∀ a b nd, node.get Q13.K_Next = some (.ref a b) → (a, b) ∉ seen2 → getDictionary os (a, b) = some nd →
+      (Q13.walkG os node acc named seen).val = (Q13.walkG os nd acc2 named ((a, b) :: seen2)).val) := by
+  have hst : Q13.pushOutline (Q13.getOutline os node named) acc named = (acc ++ [o], named) := by
+    rw [hgo]; rfl
+  constructor
+  · intro hn
+    rw [Q13.walkG]
+    split
+    · rename_i s' hp; rw [hgo] at hp; cases hp
+    · extract_lets st fr
+      have hfr : fr.val = (.ok (acc2, named), seen2) := by
+        simp only [fr, st]
+        cases hF with
+        | none h =>
+          split
+          · dsimp only; rw [hst]
+          · rename_i h'; rw [h] at h'; cases h'
+          · rename_i h'; rw [h] at h'; cases h'
+          · rename_i h'; rw [h] at h'; cases h'
+        | sub a b d subs seen2 h hs hd hw hne =>
+          split
+          · rename_i h'; rw [h] at h'; cases h'
+          · rename_i h'; rw [h] at h'; cases h'
+          · rename_i a' b' h'; rw [h] at h'; cases h'
+            split
+            · rename_i hin; exact absurd hin hs
+            · split
+              · rename_i hd'; rw [hd] at hd'; cases hd'
+              · rename_i d' hd'; rw [hd] at hd'; cases hd'
+                dsimp only
+                rw [hst]
+                simp only [Q13.wrapSub, hw, hne]
+                simp
+          · rename_i hx h'; rw [h] at h'; cases h'; exact (hx a b rfl).elim
+      split
+      · rename_i acc2' named2' hok
+        have e1 : fr.val.1 = .ok (acc2, named) := by rw [hfr]
+        rw [e1] at hok; cases hok
+        split
+        · rename_i a b hn'; rw [hn] at hn'; cases hn'
+        · rename_i d hn'; rw [hn] at hn'; cases hn'
+        · simp only [hfr]
+      · rename_i e h; rw [hfr] at h; cases h
+      · rename_i e h; rw [hfr] at h; cases h
+  · intro a b nd hn hs2 hnd
+    rw [Q13.walkG]
+    split
+    · rename_i s' hp; rw [hgo] at hp; cases hp
+    · extract_lets st fr
+      have hfr : fr.val = (.ok (acc2, named), seen2) := by
+        simp only [fr, st]
+        cases hF with
+        | none h =>
+          split
+          · dsimp only; rw [hst]
+          · rename_i h'; rw [h] at h'; cases h'
+          · rename_i h'; rw [h] at h'; cases h'
+          · rename_i h'; rw [h] at h'; cases h'
+        | sub a b d subs seen2 h hs hd hw hne =>
+          split
+          · rename_i h'; rw [h] at h'; cases h'
+          · rename_i h'; rw [h] at h'; cases h'
+          · rename_i a' b' h'; rw [h] at h'; cases h'
+            split
+            · rename_i hin; exact absurd hin hs
+            · split
+              · rename_i hd'; rw [hd] at hd'; cases hd'
+              · rename_i d' hd'; rw [hd] at hd'; cases hd'
+                dsimp only
+                rw [hst]
+                simp only [Q13.wrapSub, hw, hne]
+                simp
+          · rename_i hx h'; rw [h] at h'; cases h'; exact (hx a b rfl).elim
+      split
+      · rename_i acc2' named2' hok
+        have e1 : fr.val.1 = .ok (acc2, named) := by rw [hfr]
+        rw [e1] at hok; cases hok
+        split
+        · rename_i a' b' hn'; rw [hn] at hn'; cases hn'
+          have e2 : fr.val.2 = seen2 := by rw [hfr]
+          split
+          · rename_i hin; rw [e2] at hin; exact absurd hin hs2
+          · split
+            · rename_i next hd'; rw [hnd] at hd'; cases hd'
+              dsimp only
+              rw [e2]
+            · rename_i hd'; rw [hnd] at hd'; cases hd'
+        · rename_i d hn'; rw [hn] at hn'; cases hn'
+        · rename_i hx _; exact absurd hn (hx a b)
+      · rename_i e h; rw [hfr] at h; cases h
+      · rename_i e h; rw [hfr] at h; cases h
+
+/-- **walk.** On any document whose objects embed the sibling list `t :: r` (whatever else the
+document holds), started with a `seen` set that only contains earlier object numbers, the guarded
+`get_outlines` walk (no fuel: it terminates by its own `seen` guard) never trips the guard — every
+item of a built outline is entered exactly once — and appends exactly the outline tree of the
+forest: one destination per bookmark, in order, each followed by the sub-list of its children. -/
+theorem walk_emb (os : Objects) : ∀ (n : Nat) (t : BT) (r : List BT), BT.sizeL (t :: r) ≤ n →
+    ∀ (m : Nat) (parent : ObjId) (prev : Option ObjId) (acc : List Q13.Outline) (named : Q13.Named) (seen : List ObjId),
+    EmbL (dictAt os) m parent prev (t :: r) → (∀ q ∈ seen, q.1 ≤ m + 1) →
+    ∃ seen', (Q13.walkG os (itemDictOf parent t m prev (firstId r (m + 2 * t.size))) acc named seen).val =
+        (.ok (acc ++ outL (t :: r), named), seen') ∧ ∀ q ∈ seen', q.1 ≤ m + 2 * BT.sizeL (t :: r) := by
+  intro n
+  induction n with
   | zero =>
-    intro t r m parent prev acc hsz _
+    intro t r hsz
     have := BT.size_pos t; simp [BT.sizeL] at hsz; omega
-  | succ fu ih =>
-    intro t r m parent prev acc hsz hE
+  | succ n ih =>
+    intro t r hsz m parent prev acc named seen hE hseen
     cases t with
     | node id title f c page kids =>
       have hE' := hE
       simp only [EmbL, EmbN] at hE'
       obtain ⟨⟨_, h2, h3⟩, h4⟩ := hE'
       simp only [BT.sizeL, BT.size] at hsz
-      rw [walk]
-      simp only [getOutline_item os parent id title f c page kids m prev _ h2,
-        itemDict_get_first, getDictInDict, itemDict_get_next]
-      have hsub : ∀ (k : BT) (ks : List BT), kids = k :: ks →
-          getDictionary os (m + 2 + 1, 0) = some (itemDictOf (m + 1, 0) k (m + 2) none (firstId ks (m + 2 + 2 * k.size))) ∧
-          walk os fu (itemDictOf (m + 1, 0) k (m + 2) none (firstId ks (m + 2 + 2 * k.size))) [] = .ok (outL (k :: ks)) := by
-        intro k ks e; subst e
-        refine ⟨getDictionary_of_dictAt (EmbL_head h3), ?_⟩
-        have := ih k ks (m + 2) (m + 1, 0) none [] (by simp only [BT.sizeL] at hsz ⊢; omega) h3
-        simpa using this
-      have hnext : ∀ (t2 : BT) (r' : List BT), r = t2 :: r' →
-          getDictionary os (m + 2 * (1 + BT.sizeL kids) + 1, 0) =
-            some (itemDictOf parent t2 (m + 2 * (1 + BT.sizeL kids)) (some (m + 1, 0))
-              (firstId r' (m + 2 * (1 + BT.sizeL kids) + 2 * t2.size))) ∧
-          ∀ acc2, walk os fu (itemDictOf parent t2 (m + 2 * (1 + BT.sizeL kids)) (some (m + 1, 0))
-              (firstId r' (m + 2 * (1 + BT.sizeL kids) + 2 * t2.size))) acc2 = .ok (acc2 ++ outL (t2 :: r')) := by
-        intro t2 r' e; subst e
-        simp only [BT.size] at h4
-        refine ⟨getDictionary_of_dictAt (EmbL_head h4), ?_⟩
-        intro acc2
-        exact ih t2 r' _ parent (some (m + 1, 0)) acc2 (by simp only [BT.sizeL] at hsz ⊢; omega) h4
-      cases kids with
-      | nil =>
-        cases r with
-        | nil => simp [firstId, outL, outN, oref]
-        | cons t2 r' =>
-          obtain ⟨hn, hw2⟩ := hnext t2 r' rfl
-          simp only [firstId_cons, firstId_nil, Option.map, oref, BT.size, hn, hw2]
-          simp [outL, outN, oref]
-      | cons k ks =>
-        obtain ⟨hk, hw1⟩ := hsub k ks rfl
-        cases r with
+      simp only [BT.size]
+      have hgo := getOutline_item os parent id title f c page kids m prev (firstId r (m + 2 * (1 + BT.sizeL kids))) named h2
+      have eF : Q13.K_First = RD_FIRST := by decide
+      have eN : Q13.K_Next = RD_NEXT := by decide
+      -- First phase
+      have hF : ∃ acc2 seen2, FirstPhase os (itemDictOf parent (.node id title f c page kids) m prev
+            (firstId r (m + 2 * (1 + BT.sizeL kids)))) acc (destOf title page) named seen acc2 seen2 ∧
+          acc2 = acc ++ outN (.node id title f c page kids) ∧ ∀ q ∈ seen2, q.1 ≤ m + 2 * (1 + BT.sizeL kids) := by
+        cases kids with
         | nil =>
-          simp only [firstId_cons, firstId_nil, Option.map, oref, hk, hw1, outL_cons_isEmpty]
-          simp [outL, outN, oref]
-        | cons t2 r' =>
-          obtain ⟨hn, hw2⟩ := hnext t2 r' rfl
-          simp only [firstId_cons, Option.map, oref, hk, hw1, outL_cons_isEmpty, BT.size, hn, hw2]
-          simp [outL, outN, oref]
+          refine ⟨_, _, FirstPhase.none ?_, by simp [outN], fun q hq => by have := hseen q hq; omega⟩
+          rw [eF, itemDict_get_first]; rfl
+        | cons k ks =>
+          have hk := getDictionary_of_dictAt (EmbL_head h3)
+          obtain ⟨seen2, hw, hb⟩ := ih k ks (by simp only [BT.sizeL] at hsz ⊢; omega) (m + 2) (m + 1, 0) none []
+            named ((m + 2 + 1, 0) :: seen) h3
+            (by intro q hq; simp only [List.mem_cons] at hq; rcases hq with rfl | hq
+                · simp
+                · have := hseen q hq; omega)
+          refine ⟨_, seen2, FirstPhase.sub (m + 2 + 1) 0 _ (outL (k :: ks)) seen2 ?_ ?_ hk ?_ (outL_cons_isEmpty k ks), ?_, ?_⟩
+          · rw [eF, itemDict_get_first]; rfl
+          · intro hin; have := hseen _ hin; simp at this; omega
+          · simpa using hw
+          · simp [outN]
+          · intro q hq; have := hb q hq; simp only [BT.sizeL] at this ⊢; omega
+      obtain ⟨acc2, seen2, hFP, hacc2, hb2⟩ := hF
+      have hstep := walkG_first os _ acc named seen (destOf title page) acc2 seen2 hgo hFP
+      cases r with
+      | nil =>
+        refine ⟨seen2, ?_, ?_⟩
+        · rw [hstep.1 (by rw [eN, itemDict_get_next]; rfl), hacc2]
+          simp [outL]
+        · intro q hq; have := hb2 q hq; simp only [BT.sizeL, BT.size]; omega
+      | cons t2 r' =>
+        have hn := getDictionary_of_dictAt (EmbL_head h4)
+        simp only [BT.size] at hn h4
+        have hnext : (itemDictOf parent (.node id title f c page kids) m prev
+            (firstId (t2 :: r') (m + 2 * (1 + BT.sizeL kids)))).get Q13.K_Next =
+            some (.ref (m + 2 * (1 + BT.sizeL kids) + 1) 0) := by
+          rw [eN, itemDict_get_next]; rfl
+        have hns : ((m + 2 * (1 + BT.sizeL kids) + 1, 0) : ObjId) ∉ seen2 := by
+          intro hin; have := hb2 _ hin; simp only at this; omega
+        rw [hstep.2 _ _ _ hnext hns hn]
+        obtain ⟨seen3, hw3, hb3⟩ := ih t2 r' (by simp only [BT.sizeL] at hsz ⊢; omega) (m + 2 * (1 + BT.sizeL kids)) parent
+          (some (m + 1, 0)) acc2 named ((m + 2 * (1 + BT.sizeL kids) + 1, 0) :: seen2) h4
+          (by intro q hq; simp only [List.mem_cons] at hq; rcases hq with rfl | hq
+              · simp
+              · have := hb2 q hq; omega)
+        refine ⟨seen3, ?_, ?_⟩
+        · rw [hw3, hacc2]; simp [outL, List.append_assoc]
+        · intro q hq; have := hb3 q hq; simp only [BT.sizeL, BT.size] at this ⊢; omega
 
 /-! ## non-vacuity and the duplicate-title witness -/
 
@@ -896,7 +1032,7 @@ def dupForest : List BT :=
   [.node 1 [65] 0 [] (3, 0) [.node 2 [73] 0 [] (3, 0) []], .node 3 [66] 0 [] (4, 0) [.node 4 [73] 0 [] (4, 0) []]]
 
 theorem toc_duplicate_titles_collapse :
-    setupIdsL 1 (outL dupForest) [] = some [([65], (3, 0), 1), ([73], (4, 0), 2), ([66], (4, 0), 1)] := by
+    Q13.tocIdsList 1 (outL dupForest) [] = some [([65], (3, 0), 1), ([73], (4, 0), 2), ([66], (4, 0), 1)] := by
   decide
 
 end Lopdf
